@@ -32,6 +32,8 @@ def prepare(ctx):
 def static_source(case):
     out = [initgen.PRELUDE] + case["defs"]
     for o in case["objs"]:
+        if o.get("pre"):
+            out.append(o["pre"])
         out.append("%s%s = %s;" % (o["storage"], o["decl"], o["init"]))
         out.append("void *k_%s(void) { return (void *)&%s; }" % (o["name"], o["name"]))   # keeps unused statics alive in the reference
     return "\n".join(out) + "\n"
